@@ -186,3 +186,174 @@ func stalledPeer(r *ev.Run) {
 		})
 	}
 }
+
+// twoShims: several shim agents live in one process (one per forwarded connection), each over an underlying agent of
+// its own, and are used at the same time. Whatever one of them relays reaches its own underlying agent, byte for byte,
+// and nobody else's; every caller gets the reply to its own request.
+func twoShims(r *ev.Run) {
+	c := r.Case("shims-side-by-side", 0)
+	if c == nil {
+		return
+	}
+	r.Eval(1)
+	r.Guard(c, "several shims in one process", nil, func() {
+		const nShims, perShim, each = 3, 3, 250
+		type rig struct {
+			ag *wire.Agent
+			s  shimagent.ShimAgent
+		}
+		var rigs []*rig
+		for i := 0; i < nShims; i++ {
+			ag := wire.New()
+			ag.KeepReq = true
+			defer ag.Close()
+			sock, err := ag.Listen()
+			if err != nil {
+				r.Inconclusive(err.Error())
+				return
+			}
+			s, err := shimagent.New(shimagent.Option{Address: sock, NoUpstream: i%2 == 1})
+			if err != nil {
+				r.Violation(c, "shim-construction-fails-without-fault", err.Error(), nil)
+				return
+			}
+			rigs = append(rigs, &rig{ag, s})
+		}
+		var wg sync.WaitGroup
+		var mu sync.Mutex
+		var bad []string
+		start := make(chan struct{})
+		for si, g := range rigs {
+			for w := 0; w < perShim; w++ {
+				wg.Add(1)
+				go func(si, w int, g *rig) {
+					defer wg.Done()
+					<-start
+					for k := 0; k < each; k++ {
+						tag := []byte(fmt.Sprintf("shim%d-worker%d-req%04d|", si, w, k))
+						req := append([]byte{200}, bytes.Repeat(tag, 1+(k*7+w)%40)...)
+						resp, err := g.s.Forward(req)
+						if err != nil || !bytes.Contains(resp, tag) {
+							mu.Lock()
+							bad = append(bad, fmt.Sprintf("shim %d worker %d request %d: err=%v, reply of %d bytes does not carry the request's tag", si, w, k, err, len(resp)))
+							mu.Unlock()
+							return
+						}
+					}
+				}(si, w, g)
+			}
+		}
+		close(start)
+		done := make(chan struct{})
+		go func() { wg.Wait(); close(done) }()
+		select {
+		case <-done:
+		case <-time.After(ev.OpTimeout() + 30*time.Second):
+			r.Violation(c, "operation-does-not-complete:shims-side-by-side", "forwards on several shims did not all return", nil)
+			return
+		}
+		if len(bad) > 0 {
+			r.Violation(c, "wrong-reply:shims-side-by-side", bad[0], bad)
+			return
+		}
+		total := 0
+		for si, g := range rigs {
+			own := []byte(fmt.Sprintf("shim%d-", si))
+			for _, e := range g.ag.Events() {
+				if e.Code != 200 {
+					continue
+				}
+				total++
+				tagEnd := bytes.IndexByte(e.Req, '|')
+				if !bytes.HasPrefix(e.Req[1:], own) || tagEnd < 0 || len(e.Req[1:])%(tagEnd) != 0 || !bytes.Equal(e.Req[1:], bytes.Repeat(e.Req[1:tagEnd+1], len(e.Req[1:])/tagEnd)) {
+					r.Violation(c, "request-reaches-another-shims-agent-or-is-altered", fmt.Sprintf("the underlying agent of shim %d received a relayed request of %d bytes starting %q", si, len(e.Req), trunc(e.Req[1:])), nil)
+					return
+				}
+			}
+		}
+		if total != nShims*perShim*each {
+			r.Violation(c, "relayed-request-count:shims-side-by-side", fmt.Sprintf("%d requests sent, %d received", nShims*perShim*each, total), nil)
+			return
+		}
+		r.Count("requests relayed by three shims side by side, each reaching its own agent unaltered", total)
+		r.Nontrivial("shims-side-by-side")
+	})
+}
+
+// oversizeForward: one client hands the shim a raw request beyond the 16 MiB frame limit while others use it. The
+// over-long request is refused (or relayed whole); either way everybody else's operations complete with their own
+// replies, during and after it.
+func oversizeForward(r *ev.Run) {
+	c := r.Case("oversize-forward", 0)
+	if c == nil {
+		return
+	}
+	r.Eval(1)
+	r.Guard(c, "over-long raw request beside other clients", nil, func() {
+		ag := wire.New()
+		defer ag.Close()
+		sock, err := ag.Listen()
+		if err != nil {
+			r.Inconclusive(err.Error())
+			return
+		}
+		ag.Keyring.Add(agent.AddedKey{PrivateKey: gen.Pool()[0].Priv, Comment: "k"})
+		s, err := shimagent.New(shimagent.Option{Address: sock})
+		if err != nil {
+			r.Violation(c, "shim-construction-fails-without-fault", err.Error(), nil)
+			return
+		}
+		var wg sync.WaitGroup
+		var mu sync.Mutex
+		var bad []string
+		note := func(s string) { mu.Lock(); bad = append(bad, s); mu.Unlock() }
+		for _, size := range []int{16<<20 + 1, 16<<20 + 4096, 17 << 20} {
+			size := size
+			wg.Add(1)
+			go func() {
+				defer wg.Done()
+				big := make([]byte, size)
+				big[0] = 200
+				resp, err := s.Forward(big)
+				if err == nil && !bytes.Equal(resp, big) {
+					note(fmt.Sprintf("a raw request of %d bytes was accepted and answered with %d other bytes", size, len(resp)))
+				}
+			}()
+			for i := 0; i < 3; i++ {
+				wg.Add(1)
+				go func(i int) {
+					defer wg.Done()
+					for k := 0; k < 6; k++ {
+						if (i+k)%2 == 0 {
+							if l, err := s.List(); err != nil || len(l) != 1 {
+								note(fmt.Sprintf("listing beside an over-long raw request: %d identities, err=%v", len(l), err))
+								return
+							}
+						} else {
+							tag := append([]byte{200}, []byte(fmt.Sprintf("beside-%d-%d-%d", size, i, k))...)
+							if resp, err := s.Forward(tag); err != nil || !bytes.Equal(resp, tag) {
+								note(fmt.Sprintf("relayed request beside an over-long one: err=%v, reply %q", err, trunc(resp)))
+								return
+							}
+						}
+					}
+				}(i)
+			}
+			done := make(chan struct{})
+			go func() { wg.Wait(); close(done) }()
+			select {
+			case <-done:
+			case <-time.After(ev.OpTimeout() + 20*time.Second):
+				r.Violation(c, "operation-does-not-complete:beside-oversize-forward", fmt.Sprintf("after a raw request of %d bytes was handed to Forward, operations of other clients did not return", size), nil)
+				ag.Close()
+				return
+			}
+			if len(bad) > 0 {
+				r.Violation(c, "wrong-reply:beside-oversize-forward", bad[0], bad)
+				return
+			}
+		}
+		r.Count("over-long raw requests handed to the shim beside other clients", 3)
+		r.Nontrivial("oversize-forward")
+	})
+}
